@@ -11,6 +11,7 @@ package ante
 //@   let n0 := seqOr1(NextL1Sequence)
 //@   ensures !mode ==> $nextCalled == 1 && $depositCalls == 0                                                                   // C20: nothing_enforced_outside_checking
 //@   ensures mode && $nextCalled == 1 ==> !((exists j int :: 0 <= j && j < len(msgs) && isType(msgs[j], "*github.com/initia-labs/OPinit/x/opchild/types.MsgFinalizeTokenDeposit")) && seqOr1(NextL1Sequence) == n0)   // C20: all_stale_deposit_tx_is_rejected
+//@   ensures mode && !(exists j int :: 0 <= j && j < len(msgs) && isType(msgs[j], "*github.com/initia-labs/OPinit/x/opchild/types.MsgFinalizeTokenDeposit")) ==> $nextCalled == 1                      // C20: tx_without_deposit_finalizations_is_not_filtered
 //@   ensures mode && $nextCalled == 0 && seqOr1(NextL1Sequence) > n0 ==> $errFromDeposit                                         // C20: tx_with_fresh_deposit_passes
 //@   ensures mode && $nextCalled == 0 && !$errFromDeposit ==> err == ErrRedundantTx                                              // C20: rejection_is_redundancy_error
 //@   loop 0 invariant 0 <= $i && $i <= len(msgs) && 0 <= redundancies && redundancies <= packetMsgs && packetMsgs <= $i
